@@ -108,6 +108,8 @@ void check_C07(Src &s, Ctx &ctx) {
     SpecOpts so; so.min_outs = 1; so.max_outs = 3; so.cap = cfg().tier ? 350 : 250; so.custom = false; so.conformal = true;
     GridState st; st.cap = so.cap; st.ctx = &ctx;
     st.spec = decode_spec(s, so); st.vm.decode(s);
+    // one case in eight (from the last byte, consumes nothing): a model whose hierarchical coefficients vanish exactly at many points (constant, affine, one active direction)
+    if (s.n >= 3 && (s.p[s.n - 1] % 8) == 3) { st.vm.degenerate = 1 + (s.p[s.n - 2] % 3); ctx.label("model:degenerate"); }
     make_grid(st.g, st.spec, so.cap);
     ctx.log(st.spec.text()); ctx.log(st.vm.text());
     static const std::vector<int> kinds = {OP_LOAD, OP_LOAD, OP_LOAD, OP_REF_SURP, OP_REF_SURP, OP_REF_ANISO, OP_REF_ANISO, OP_RELOAD, OP_UPDATE, OP_UPDATE, OP_CLEAR_REF, OP_MERGE, OP_CLEAR_LIMITS};
